@@ -101,6 +101,8 @@ func (p *Proxy) ServeHTTP(w http.ResponseWriter, r *http.Request) {
 
 	start := time.Now()
 	var scrapErr error
+	// bodyFailed is set when the real scrape breaks off while its body is being forwarded to Prometheus
+	bodyFailed := false
 	defer func() {
 		if scrapErr != nil {
 			p.log.Errorf(scrapErr.Error())
@@ -117,6 +119,12 @@ func (p *Proxy) ServeHTTP(w http.ResponseWriter, r *http.Request) {
 		if tar != nil {
 			tar.ScrapeTimes++
 			tar.SetScrapeErr(start, scrapErr)
+		}
+
+		if bodyFailed {
+			// part of the body may already have been sent with status 200, the status code above is then ignored:
+			// abort the response so that Prometheus sees a failed scrape instead of a complete, truncated one
+			panic(http.ErrAbortHandler)
 		}
 	}()
 
@@ -140,6 +148,7 @@ func (p *Proxy) ServeHTTP(w http.ResponseWriter, r *http.Request) {
 		if time.Since(start) > time.Duration(jobInfo.Config.ScrapeTimeout) {
 			scrapErr = fmt.Errorf("scrape timeout")
 		}
+		bodyFailed = stopReason == ""
 		return
 	}
 
